@@ -218,7 +218,7 @@ def check_program(ctx, prog, layout, picks, scratch):
                         label = "completion:use-only:re-exported-alias-offered-under-its-original-name"
                 if context in ("member", "call-member"):
                     b = o.stmt.toks[o.tok_i - 2]
-                    if o.scope is not None and any(fws.leak_through_private_module(o.scope, x) for x in universe.get(b.spelling().lower(), []) if x is not b.ent):
+                    if o.scope is not None and any(fws.leak_through_private_module(o.scope, x, name=b.spelling()) for x in universe.get(b.spelling().lower(), []) if x is not b.ent):
                         label = "completion:extra:leaked-through-a-default-PRIVATE-module"
                     elif o.scope is not None and any(fws.hidden_by_rename_list(o.scope, rt.spelling(), x) for rt in [chain_root(o)]
                                                        for x in universe.get(rt.spelling().lower(), []) if x is not rt.ent):
@@ -231,7 +231,7 @@ def check_program(ctx, prog, layout, picks, scratch):
             for n in sorted(extra)[:2]:
                 why = "inaccessible-or-wrong-kind"
                 ents = universe.get(n, [])
-                if o.scope is not None and any(fws.leak_through_private_module(o.scope, e) for e in ents):
+                if o.scope is not None and (context == "use-only" or n not in o.scope.accessible()) and any(fws.leak_through_private_module(o.scope, e, name=n) for e in ents):
                     why = "leaked-through-a-default-PRIVATE-module"
                 elif o.scope is not None and n in o.scope.accessible():
                     why = f"accessible-but-wrong-kind({o.scope.accessible()[n].kind})"
